@@ -39,6 +39,16 @@ theorem pad_positive (m : Rat) (hm : 0 ≤ m) :
 
 /-! ## the refinement mesh -/
 
+/-- Normal form of the regenerated `meshBounds`; the theorems below go through `meshBounds_nf`, so that an
+equivalent re-ordering of the source (`-(shifts + max_shifts)`, `max_shifts - shifts`) only has to pass here. -/
+def meshBoundsNF (maxima mid : Int) (m : Rat) : Int × Int :=
+  (Py.ceil (Py.rmax ((((-(maxima - mid)) : Int) : Rat) - m) (-1 : Rat) * (20 : Rat)),
+   Py.floor (Py.rmin ((((-(maxima - mid)) : Int) : Rat) + m) (1 : Rat) * (20 : Rat)))
+
+theorem meshBounds_nf (maxima mid : Int) (m : Rat) : meshBounds maxima mid m = meshBoundsNF maxima mid m := by
+  simp only [meshBounds, meshBoundsNF, Rat.intCast_neg] <;> first | rfl | (congr 4 <;> grind)
+
+
 /-- **Mesh bounds are ordered** (the refinement arg-max is over a non-empty array) for every
 `m ≥ 0` and every integer peak within `ceil m` of the midpoint (ZNCC/NCC peaks are within `int m`,
 FSC peaks within `ceil m`). Zero is always a node when the peak is within `m`. -/
@@ -46,7 +56,7 @@ theorem mesh_nonempty (m : Rat) (maxima mid : Int) (hm : 0 ≤ m)
     (hs1 : -(Py.ceil m) ≤ maxima - mid) (hs2 : maxima - mid ≤ Py.ceil m) :
     (meshBounds maxima mid m).1 ≤ (meshBounds maxima mid m).2
       ∧ -20 ≤ (meshBounds maxima mid m).1 ∧ (meshBounds maxima mid m).2 ≤ 20 := by
-  simp only [meshBounds]
+  rw [meshBounds_nf]; simp only [meshBoundsNF]
   generalize hs : maxima - mid = s at *
   have hc1 := Py.ceil_lt_add_one m
   have hsR1 : (-(Py.ceil m : Int) : Rat) ≤ (s : Rat) := by
@@ -94,7 +104,7 @@ theorem mesh_in_range (m : Rat) (maxima mid j : Int)
     (hj1 : (meshBounds maxima mid m).1 ≤ j) (hj2 : j ≤ (meshBounds maxima mid m).2) :
     -m ≤ ((maxima - mid : Int) : Rat) + (j : Rat) / 20
       ∧ ((maxima - mid : Int) : Rat) + (j : Rat) / 20 ≤ m := by
-  simp only [meshBounds] at hj1 hj2
+  rw [meshBounds_nf] at hj1 hj2; simp only [meshBoundsNF] at hj1 hj2
   generalize hs : maxima - mid = s at *
   have hneg : (((-s : Int)) : Rat) = -(s : Rat) := by simp [Rat.intCast_neg]
   rw [hneg] at hj1 hj2
